@@ -1,2 +1,171 @@
-(* C15 — placeholder while the proofs are being written. *)
-From Ka Require Import Model.Display.
+(* C15 — Displayed text denotes the value, and the re-entry text round-trips.
+   Statements only; each is closed by [exact <lemma>] (Proofs/DisplayProofs.v).
+   [display p bf v] is the line display_result writes for the value v at precision p
+   (bf = execute's brackets_for_frac), [reentry_text p v] is
+   stringify_result(v, brackets_for_frac=True), the text the GUI puts back into the input line. *)
+From Coq Require Import ZArith QArith Qabs List String.
+From Ka Require Import Model.Num Model.Display Proofs.DisplayProofs.
+From Ka Require Import Gen.GenUnits.
+From Ka Require Model.Calendar Model.Instant.
+Import ListNotations.
+Local Open Scope string_scope.
+
+(* Integers print in full: an independent reader (optional '-', Horner over the digit
+   characters, nothing left over) gets the integer back, for every z (no size bound). *)
+Theorem C15_int_text : forall p bf z,
+  display p bf (VNum (NInt z)) = show_Z z /\ Z_of_text (show_Z z) = Some z.
+Proof. exact display_int. Qed.
+
+(* Fractions: the text before the approximation is "n/d" when |f| < 1 and the mixed form
+   "w n/d" otherwise; read back (sign written on w, applying to the whole) it denotes f,
+   with 0 < n/d < 1 in the mixed form and n/d in lowest terms, for every canonical fraction. *)
+Theorem C15_fraction_text : forall p bf q,
+  Qred q = q -> (1 < Qden q)%positive ->
+  display p bf (VNum (NFrac q)) = prettify_frac q false ++ " " ++ "    (" ++ approx_text p q ++ ")"
+  /\ exists w n d,
+       mixed_parts (prettify_frac q false) = Some (w, n, d)
+       /\ d = Zpos (Qden q)
+       /\ (mixed_denote w n d == q)%Q
+       /\ Z.gcd n d = 1%Z
+       /\ match w with
+          | None => n = Qnum q /\ (Z.abs n < d)%Z
+          | Some a => a <> 0%Z /\ (0 < n < d)%Z /\ ((a < 0)%Z <-> (q < 0)%Q)
+          end.
+Proof. exact display_fraction. Qed.
+
+(* ... followed by a decimal approximation: when float(f) is a non-zero double g, g is within
+   half a quantum (2^(e2-52), e2 the binary exponent of |f|, at least -1022) of f and the
+   parenthesised text is g rounded to p significant digits. *)
+Theorem C15_fraction_approx : forall p q g,
+  (1 <= p)%Z -> float_of_Q q = Some g -> ~ (g == 0)%Q ->
+  approx_text p q = fmt_g p g
+  /\ (Qabs (q - g) <= (1 # 2) * quantum (Qabs q))%Q
+  /\ exists v e k,
+       value_of_text (approx_text p q) = Some v
+       /\ sig_digits (approx_text p q) = Some k /\ (k <= Z.to_nat p)%nat
+       /\ (bpow 10 e <= Qabs v)%Q /\ (Qabs v < bpow 10 (e + 1))%Q
+       /\ (Qabs (v - g) <= (1 # 2) * bpow 10 (e - p + 1))%Q.
+Proof. exact approx_text_denotes. Qed.
+
+(* The digit-generation core of '%.{p}g': for every p >= 1 and every x > 0 the mantissa m has
+   exactly p digits and m * 10^(e-p+1) is within half a unit of the last digit of x. *)
+Theorem C15_round_sig : forall p x,
+  (1 <= p)%Z -> (0 < x)%Q ->
+  let m := fst (round_sig p x) in
+  let e := snd (round_sig p x) in
+  (10 ^ (p - 1) <= m < 10 ^ p)%Z
+  /\ (Qabs (x - inject_Z m * bpow 10 (e - p + 1)) <= (1 # 2) * bpow 10 (e - p + 1))%Q.
+Proof. exact round_sig_spec. Qed.
+
+(* Floats: for every precision p >= 1 and every non-zero value x (the exact value of the
+   double, of any magnitude) the displayed text — plain or exponent form, after zero
+   stripping — reads as a decimal v with at most p significant digits and
+   |v - x| <= 1/2 * 10^(e-p+1), e being the decimal exponent of v. *)
+Theorem C15_float_precision : forall p bf x,
+  (1 <= p)%Z -> ~ (x == 0)%Q ->
+  display p bf (VNum (NFlt x)) = fmt_g p x
+  /\ exists v e k,
+       value_of_text (fmt_g p x) = Some v
+       /\ sig_digits (fmt_g p x) = Some k /\ (k <= Z.to_nat p)%nat
+       /\ (bpow 10 e <= Qabs v)%Q /\ (Qabs v < bpow 10 (e + 1))%Q
+       /\ (Qabs (v - x) <= (1 # 2) * bpow 10 (e - p + 1))%Q.
+Proof. exact display_float. Qed.
+
+(* Quantities: the magnitude text, a space, the unit text; the unit text read back (words
+   separated by single spaces, each "name" or "name^exp") is exactly the list of non-zero
+   dimensions as live base-unit names with their exponents, in base-unit order. *)
+Theorem C15_quantity_text : forall p bf mag dims,
+  display p bf (VQty mag dims)
+  = match mag with
+    | NFrac q => prettify_frac q bf ++ " " ++ prettified dims
+                 ++ "    (" ++ approx_text p q ++ " " ++ prettified dims ++ ")"
+    | NInt z => show_Z z ++ " " ++ prettified dims
+    | NFlt x => fmt_g p x ++ " " ++ prettified dims
+    end
+  /\ dims_of_text (prettified dims) = Some (nonzero_dims base_units dims)
+  /\ nonzero_dims base_units dims
+     = filter (fun ne => negb (snd ne =? 0)%Z) (combine base_units dims).
+Proof. exact display_quantity. Qed.
+
+(* Arrays and intervals are printed element-wise (elements through stringify_result). *)
+Theorem C15_elementwise : forall p bf,
+  (forall l, display p bf (VArr l) = "{" ++ String.concat ", " (map (stringify p false) l) ++ "}")
+  /\ (forall l b, stringify p b (VArr l) = "{" ++ String.concat ", " (map (stringify p b) l) ++ "}")
+  /\ (forall a b, display p bf (VIvl a b) = "[" ++ stringify p false a ++ ", " ++ stringify p false b ++ "]")
+  /\ (forall a b c, stringify p c (VIvl a b) = "[" ++ stringify p false a ++ ", " ++ stringify p false b ++ "]")
+  /\ (forall n, stringify p false (VNum n) = num_text p n false)
+  /\ (forall mag dims, stringify p false (VQty mag dims) = num_text p mag false ++ " " ++ prettified dims).
+Proof. exact display_elementwise. Qed.
+
+(* Re-entry, PARTIAL: the local facts about the re-entry text of every kind — an integer is
+   its digit string (read back exactly); a fraction is "(n/d)" denoting it; a float is its
+   '%.{p}g' text (C15_float_precision bounds its reading); a quantity is the magnitude's
+   re-entry text, a space, and unit words that read back as its non-zero dimensions (not
+   empty when some dimension is non-zero); arrays and intervals are element-wise; a string
+   without quotes/backslashes is read back by the lexer's read_string; an instant is its ISO
+   text between '#'.  MISSING: the composition with the lexer, parser and evaluator
+   ("execute(reentry_text v) = v"), which needs C11/C02 and an evaluator model; it is
+   established by the correspondence run (harness/props/c15.py), not by a theorem. *)
+Theorem C15_reentry_partial : forall p,
+  (forall z, reentry_text p (VNum (NInt z)) = show_Z z /\ Z_of_text (show_Z z) = Some z)
+  /\ (forall q, reentry_text p (VNum (NFrac q)) = "(" ++ frac_text q ++ ")"
+                /\ mixed_parts (frac_text q) = Some (None, Qnum q, Zpos (Qden q))
+                /\ (inject_Z (Qnum q) / inject_Z (Zpos (Qden q)) == q)%Q)
+  /\ (forall x, reentry_text p (VNum (NFlt x)) = fmt_g p x)
+  /\ (forall mag dims,
+        reentry_text p (VQty mag dims) = reentry_text p (VNum mag) ++ " " ++ prettified dims
+        /\ dims_of_text (prettified dims) = Some (nonzero_dims base_units dims)
+        /\ (nonzero_dims base_units dims <> [] -> prettified dims <> ""))
+  /\ (forall l, reentry_text p (VArr l) = "{" ++ String.concat ", " (map (reentry_text p) l) ++ "}")
+  /\ (forall a b, reentry_text p (VIvl a b) = "[" ++ stringify p false a ++ ", " ++ stringify p false b ++ "]")
+  /\ (forall s, reentry_text p (VStr s) = quote ++ s ++ quote
+                /\ (plain_string s = true -> read_string (reentry_text p (VStr s)) = Some s))
+  /\ (forall y mo d h mi s us tz,
+        reentry_text p (VInst y mo d h mi s us tz) = "#" ++ iso_text y mo d h mi s us tz ++ "#"
+        /\ display p false (VInst y mo d h mi s us tz) = iso_text y mo d h mi s us tz).
+Proof. exact reentry_local. Qed.
+
+(* Re-entry of a naive instant (no time zone), through the evaluator's instant_from_iso as
+   modelled and proved for C17 (Model/Instant.v): the text between the '#' is read back as an
+   instant whose display is the same ISO text.  (The lexer step — read_instant takes the text
+   between the two '#' — and zoned instants are left to the correspondence.) *)
+Theorem C15_reentry_instant_partial : forall p y mo d h mi s us,
+  Calendar.valid_year y = true -> Calendar.valid_date y mo d = true -> Instant.valid_time h mi s us = true ->
+  reentry_text p (VInst y mo d h mi s us None) = "#" ++ Instant.iso_text y mo d h mi s us ++ "#"
+  /\ exists i, Instant.instant_from_iso (Instant.iso_text y mo d h mi s us) = Ok i
+               /\ Instant.in_range i = true
+               /\ Instant.show_instant i = display p false (VInst y mo d h mi s us None).
+Proof. exact reentry_instant. Qed.
+
+(* Non-vacuity: concrete texts of every kind (evaluated in the kernel). *)
+Example C15_witness_float :
+  fmt_g 6 (1 # 3) = "0.333333" /\ fmt_g 6 (12345678 # 10) = "1.23457e+06"
+  /\ fmt_g 6 (9999995 # 10) = "1e+06" /\ fmt_g 1 (- 25 # 100) = "-0.2"
+  /\ fmt_g 17 (3602879701896397 # 36028797018963968) = "0.10000000000000001"
+  /\ fmt_g 6 (1 # 100000) = "1e-05" /\ fmt_g 0 (15 # 10) = "2"
+  /\ value_of_text "1.23457e+06" = Some (1 * inject_Z 123457 * bpow 10 (6 - 5))%Q.
+Proof. vm_compute. repeat split. Qed.
+
+Example C15_witness_display :
+  display 6 false (VNum (NFrac (-7 # 2))) = "-3 1/2     (-3.5)"
+  /\ display 6 false (VQty (NFrac (1 # 2)) [0; 1; -2; 0; 0; 0; 0; 0]%Z) = "1/2 m s^-2    (0.5 m s^-2)"
+  /\ display 6 true (VQty (NFrac (1 # 2)) [0; 1; -2; 0; 0; 0; 0; 0]%Z) = "(1/2) m s^-2    (0.5 m s^-2)"
+  /\ display 2 false (VIvl (VNum (NInt 0)) (VNum (NFlt (20794415416798357 # 10000000000000000)))) = "[0, 2.1]"
+  /\ reentry_text 6 (VArr [VQty (NFrac (1 # 2)) [0; 1; -2; 0; 0; 0; 0; 0]%Z; VStr "a";
+                           VIvl (VNum (NInt 1)) (VNum (NFlt (7 # 10)));
+                           VInst 2020 1 2 3 4 5 678 (Some (-19800000000)%Z)])
+     = "{(1/2) m s^-2, ""a"", [1, 0.7], #2020-01-02T03:04:05.000678-05:30#}"
+  /\ mixed_parts "-3 1/2" = Some (Some (-3)%Z, 1%Z, 2%Z)
+  /\ dims_of_text "kg m^2 s^-3" = Some [("kg", 1%Z); ("m", 2%Z); ("s", (-3)%Z)]
+  /\ reentry_text 6 (VQty (NInt 3) [0; 0; 0; 0; 0; 0; 0; 0]%Z) = "3 ".
+Proof. vm_compute. repeat split. Qed.
+
+Print Assumptions C15_int_text.
+Print Assumptions C15_fraction_text.
+Print Assumptions C15_fraction_approx.
+Print Assumptions C15_round_sig.
+Print Assumptions C15_float_precision.
+Print Assumptions C15_quantity_text.
+Print Assumptions C15_elementwise.
+Print Assumptions C15_reentry_partial.
+Print Assumptions C15_reentry_instant_partial.
